@@ -923,6 +923,25 @@ pub fn fault_scenarios(r: &mut Rng, idx: u64, out: &mut Vec<String>) {
                 let es: Vec<Entry> = (0..40u32).filter(|i| (i + j) % 3 != 0).map(|i| (i.to_be_bytes().to_vec(), r.bytes(100))).collect();
                 srcs.push(format!("msrc {} codec=0 bs=1024 levels={}", fmt_entries(&es), j % 3));
             }
+            // a single source, and sources of very different extents: the failing source is the last one running
+            // (nothing left in the heap to carry on after it)
+            let lone: Vec<Entry> = (0..60u32).map(|i| (i.to_be_bytes().to_vec(), r.bytes(100))).collect();
+            let short: Vec<Entry> = (0..6u32).map(|i| ((i * 2).to_be_bytes().to_vec(), r.bytes(10))).collect();
+            for k in 1..14 {
+                for kind in ["seek", "read", "seekintr"] {
+                    out.push(format!("S fault-ms1-{}-{}-{}", idx, kind, k));
+                    out.push(format!("msrc {} codec=0 bs=1024 levels=1", fmt_entries(&lone)));
+                    out.push(format!("srcopt fault={}:{}:{}", kind, k, tag));
+                    out.push("!merge concat 0".into());
+                    out.push("!mergew concat 0".into());
+                    out.push(format!("S fault-ms2-{}-{}-{}", idx, kind, k));
+                    out.push(format!("msrc {} codec=0 bs=1024 levels=0", fmt_entries(&short)));
+                    out.push(format!("msrc {} codec=0 bs=1024 levels=1", fmt_entries(&lone)));
+                    out.push(format!("srcopt fault={}:{}:{}", kind, 2 * k + 1, tag));
+                    out.push("!merge concat 0".into());
+                    out.push("!mergew concat 0".into());
+                }
+            }
             for k in 1..40 {
                 for kind in ["seek", "read", "seekintr"] {
                     out.push(format!("S fault-ms-{}-{}-{}", idx, kind, k));
